@@ -70,6 +70,8 @@ def _step(g, st, o, ni, ai, idv, s):
             return g, ''
         if used:
             return g, 'add_attacker(id=%s) accepted an id that is in use' % explicit
+        if explicit is not None and a.id != explicit:
+            return g, 'add_attacker(id=%s) assigned id %s' % (explicit, a.id)
         if not has_identity(g.attackers, a):
             return g, 'add_attacker did not add the attacker'
     elif o == 5:
@@ -138,7 +140,7 @@ def body_hist(cube, **kw):
         a = Attacker(name='a0'); g.add_attacker(a)
         st = {'seen_ids': [n.id for n in nodes], 'seen_names': [n.full_name for n in nodes]}
     with notrace():
-        for (i, j) in ((0, 1), (1, 2), (2, 1), (1, 1)):
+        for (i, j) in ((0, 1), (1, 2), (2, 1), (1, 1), (0, 1)):     # incl. a parallel edge 0 -> 1
             link(nodes[i], nodes[j])
     if kw['r']:
         a.compromise(nodes[1])
@@ -171,7 +173,8 @@ def L_MINI():
 
 
 GOPS = ['regenerate_graph', 'attach_attackers', 'remove_node(n)', 'compromise(n)', 'add_node()', 'remove_attacker(0)',
-        'calculate+prune', 'model: add asset + regenerate', 'model: set defense + regenerate']
+        'calculate+prune', 'model: add asset + regenerate', 'model: set defense + regenerate',
+        'model: remove last asset + regenerate']
 
 
 def body_gen(cube, **kw):
@@ -201,7 +204,9 @@ def body_gen(cube, **kw):
             return 'generated graph: ' + r
         for s in range(k):
             o, ni = ops[s], nis[s]
-            if o == 0 or o == 7 or o == 8:
+            if o == 0 or o == 7 or o == 8 or o == 9:
+                if o == 9 and len(m.assets) > 1:
+                    m.remove_asset(m.assets[-1])
                 if o == 7:
                     m.add_asset(lcf.ns.N(name='late%d' % s))
                 if o == 8:
@@ -224,6 +229,8 @@ def body_gen(cube, **kw):
                     x = g.get_node_by_full_name(nm)
                     if x is not None and has_identity(old_nodes, x):
                         return 'step %d: lookup of %s after regeneration returns a pre-regeneration node' % (s, nm)
+                    if (x is None) != (fresh.get_node_by_full_name(nm) is None):
+                        return 'step %d: lookup of %s differs between regenerated and fresh graph' % (s, nm)
                 if g.attackers:
                     return 'step %d: regenerated graph still has attackers' % s
                 if g.get_attacker_by_id(0) is not None:
